@@ -24,6 +24,24 @@ let handle (f : string array) : string =
      | None -> "err"
      | Some [] -> "-"
      | Some l -> String.concat "," (List.map dec_of_n l))
+  | "k" ->
+    (* k <layout> <tree>: comment ids printed for a nested literal *)
+    let toks = Array.of_list (String.split_on_char '.' f.(2)) in
+    let pos = ref 0 and next = ref 0 in
+    let rec tree () : cexp =
+      let tk = toks.(!pos) in incr pos;
+      if tk = "L" then CLeaf else begin
+        let n = int_of_string (String.sub tk 1 (String.length tk - 1)) in
+        let items = List.init n (fun _ ->
+          let c = toks.(!pos) in incr pos;
+          let k = int_of_string (String.sub c 1 (String.length c - 1)) in
+          let cs = List.init k (fun _ -> let i = !next in incr next; n_of_int i) in
+          let t = tree () in (cs, t)) in
+        if tk.[0] = 'A' then CArr items else CMap items end in
+    let t = tree () in
+    (match fmt false t with
+     | [] -> "-"
+     | l -> String.concat "," (List.map dec_of_n l))
   | "v" ->
     (* v <ast src> <ast format(src)> <ast format(format(src))> *)
     let a0 = ast_of_string f.(1) and a1 = ast_of_string f.(2) and a2 = ast_of_string f.(3) in
